@@ -252,28 +252,28 @@ def _load_custom(case):
 
 
 def _call(path):
+    """calculateDerived(path) with everything it says captured (stdout, stderr, `warnings`)"""
+    import warnings as _w
     from ethz_snow import constants
 
-    buf = io.StringIO()
+    buf, ebuf = io.StringIO(), io.StringIO()
     out = {}
-    try:
-        with contextlib.redirect_stdout(buf):
-            const = constants.calculateDerived(path)
-        out["raise"] = None
-        out["const"] = [[k, (v if isinstance(v, str) else float(v))] for k, v in const.items()]
-    except Exception as e:
-        out["raise"] = _cls(e)
-    text = buf.getvalue()
-    out["stdout_lines"] = len([l for l in text.splitlines() if l.strip()])
-    m = re.search(r"WARNING: Custom config keys? (\{.*\}) (is|are) not valid", text)
-    if m:
+    with _w.catch_warnings(record=True) as caught:
+        _w.simplefilter("always")
         try:
-            out["reported"] = sorted(ast.literal_eval(m.group(1)))
-        except Exception:
-            out["reported"] = ["<unparsable>" + m.group(1)]
-    else:
-        out["reported"] = []
+            with contextlib.redirect_stdout(buf), contextlib.redirect_stderr(ebuf):
+                const = constants.calculateDerived(path)
+            out["raise"] = None
+            out["const"] = [[k, (v if isinstance(v, str) else float(v))] for k, v in const.items()]
+        except Exception as e:
+            out["raise"] = _cls(e)
+    out["said"] = buf.getvalue() + "\n" + ebuf.getvalue() + "\n" + "\n".join(str(w.message) for w in caught)
     return out
+
+
+def _named(text, keys):
+    """which of `keys` are named in what the code said (whole words; the wording is not prescribed)"""
+    return sorted(k for k in keys if re.search(r"(?<![A-Za-z0-9_])" + re.escape(k) + r"(?![A-Za-z0-9_])", text))
 
 
 def run_impl(case):
@@ -309,6 +309,9 @@ def run_impl(case):
             obs["merged_raise"] = _cls(e)
         # unknown keys are inert: the same file without the unknown names
         custom, has = _load_custom(case)
+        unknown = sorted(all_keys(custom) - all_keys(default_obj())) if has and isinstance(custom, dict) else []
+        # "reported" = the unknown keys that are NAMED in what the code printed / warned (wording not prescribed)
+        obs["reported"] = _named(obs.pop("said", ""), unknown)
         if has and isinstance(custom, dict):
             known = all_keys(default_obj())
             pr = prune(custom, known)
@@ -384,7 +387,13 @@ def compare(case, impl, model):
     dis = []
     if case["kind"] == "meta":
         return dis
-    if impl.get("raise") != model.get("raise"):
+    if (impl.get("raise") is None) != (model.get("raise") is None):
+        dis.append(f"rejected/accepted: impl {impl.get('raise')} vs model {model.get('raise')} ({model.get('stage')})")
+        return dis
+    if impl.get("raise") != model.get("raise") and case.get("welltyped"):
+        # for files of the right kinds the class is part of the computation (NotImplementedError of an unsupported
+        # enumeration, ZeroDivisionError of a zero divisor); for malformed files (mapping where a scalar belongs,
+        # null, text for a number) WHICH built-in exception Python happens to raise is not prescribed
         dis.append(f"exception: impl {impl.get('raise')} vs model {model.get('raise')} ({model.get('stage')})")
         return dis
     if sorted(impl.get("reported", [])) != model.get("reported"):
@@ -404,7 +413,8 @@ def compare(case, impl, model):
             if isinstance(a[k], str) or isinstance(b[k], str):
                 if a[k] != b[k]:
                     dis.append(f"const[{k}]: impl {a[k]!r} vs model {b[k]!r}")
-            elif not close(a[k], b[k]):
+            elif not (rel_close(a[k], b[k]) or (a[k] != a[k] and b[k] != b[k])):
+                # same operation order on both sides: relative 1e-12 (NaN only against NaN)
                 dis.append(f"const[{k}]: impl {a[k]!r} vs model {b[k]!r}")
         d = impl.get("dispatch")
         if d is not None and "called" in d:
@@ -463,11 +473,23 @@ COPIED = {
 }
 
 
-def _close_rel(a, b, scale):
+RTOL_C19 = 1e-12
+
+
+def rel_close(a, b, rtol=RTOL_C19):
+    """purely RELATIVE comparison (the derived constants span 1e-26 .. 1e6): equal, or within rtol of the larger
+    magnitude; NaN is never close to anything, an infinity only to the same infinity"""
     import math
+    a, b = float(a), float(b)
+    if a == b:
+        return True
     if math.isnan(a) or math.isnan(b) or math.isinf(a) or math.isinf(b):
-        return True  # overflowed inputs: nothing to compare
-    return abs(a - b) <= 1e-9 * max(1.0, abs(a), abs(b), scale)
+        return False
+    return abs(a - b) <= rtol * max(abs(a), abs(b))
+
+
+def _close_rel(a, b, scale):
+    return rel_close(a, b)
 
 
 def predicates(case, impl):
@@ -490,9 +512,6 @@ def predicates(case, impl):
         if want != sorted(impl.get("reported", [])):
             out.append(Failure(clause="unknown_keys_reported", key=f"unknown_keys_reported|_loadConfig|",
                                detail=f"reported {impl.get('reported')} but keys(custom)-keys(default) = {want}"))
-        if not want and impl.get("stdout_lines", 0) != 0:
-            out.append(Failure(clause="unknown_keys_reported", key=f"unknown_keys_reported|_loadConfig|spurious",
-                               detail="a WARNING is printed although every key of the custom file is known"))
     # unknown keys have no effect (quantifier: partial files = inside the default key tree once the
     # unknown names are removed; a mapping where the default has a scalar is a malformed file)
     if "pruned" in impl and isinstance(custom, dict) and inside(prune(custom, known), d):
